@@ -74,6 +74,11 @@ func NewChainDataBase(home string) *ChainDatabase {
 	// 	log.Errorf("stable block`height: " + strconv.Itoa(int(stableBlock.Height())))
 	// }
 
+	err = db.refreshCandidates(stableBlock)
+	if err != nil {
+		panic("refresh candidates err: " + err.Error())
+	}
+
 	db.LastConfirm = NewGenesisBlock(stableBlock, db.Beansdb)
 	candidates, err := db.Context.Candidates.GetCandidates()
 	if err != nil {
@@ -124,6 +129,62 @@ func (database *ChainDatabase) GetStableBlock() (*types.Block, error) {
 	}
 
 	return stableBlock, nil
+}
+
+// refreshCandidates writes the candidates that the stable block changed into the context file again. blockCommit does
+// that after it has moved the stable block pointer; if the process died in between, the file still holds the votes as of
+// the parent block, and a candidate that registered in the stable block is missing from it.
+func (database *ChainDatabase) refreshCandidates(stableBlock *types.Block) error {
+	if stableBlock == nil {
+		return nil
+	}
+
+	changed := make(map[common.Address]bool)
+	candidates := make([]*Candidate, 0)
+	for _, changeLog := range stableBlock.ChangeLogs {
+		if changed[changeLog.Address] {
+			continue
+		}
+		changed[changeLog.Address] = true
+
+		account, err := database.GetAccount(changeLog.Address)
+		if err == ErrAccountNotExist {
+			continue
+		}
+		if err != nil {
+			return err
+		}
+
+		if len(account.Candidate.Profile) <= 0 || account.Candidate.Votes == nil {
+			continue
+		}
+
+		// The account table can be ahead of the stable block pointer (the process died after the next block's batch was
+		// handed to the store and before its pointer was moved): such a record is not the stable block's state
+		isNewer := false
+		for _, record := range account.NewestRecords {
+			if record.Height > stableBlock.Height() {
+				isNewer = true
+			}
+		}
+		if isNewer {
+			continue
+		}
+		candidates = append(candidates, &Candidate{
+			Address: account.Address,
+			Total:   account.Candidate.Votes,
+		})
+	}
+
+	if len(candidates) <= 0 {
+		return nil
+	}
+
+	err := database.Context.SetCandidates(candidates)
+	if err != nil {
+		return err
+	}
+	return database.Context.Flush()
 }
 
 func (database *ChainDatabase) GetLastConfirm() *CBlock {
